@@ -254,6 +254,11 @@ def run_case(data):
             lname, hdrs = ch.pick(HEADER_LISTS)
             if ch.chance(24):
                 lname, hdrs = 'frame-filling', big_list(16384 - ch.int(60, 75))
+            elif ch.chance(24):
+                # a block that needs CONTINUATION frames at the peer's frame size (whatever ours has become), as a
+                # request, a response or trailers
+                base = ch.pick([REQ, RESP, [(b'x-t', b'1')]])
+                lname, hdrs = 'multi-frame', base + [(b'x-fill', b'X' * ch.pick([17000, 30000]))]
             kw = {}
             if ch.chance(64):
                 kw['priority_weight'] = ch.pick([1, 256, 0, 257, 16])
